@@ -64,7 +64,7 @@ theorem updCls_has (name : String) (g g2 : Heap) (v : Nat) (f : Cls → Cls) (hf
 structure ImplHas (name : String) (impl : Nat → M Unit) : Prop extends Impl impl where
   has : ∀ v g g2, impl v g = .ok g2 () → (∃ vc, g.cls[v]? = some vc) → HasField name g2 v
 
-theorem implHas_append (F : Facts15) (fuel : Nat) (name : String) (t : Nat) :
+theorem implHas_append (F : Facts15) [DeepCopy F] (fuel : Nat) (name : String) (t : Nat) :
     ImplHas name (appendImpl F fuel name t) := by
   refine ⟨impl_append F fuel name t, ?_⟩
   intro v g g2 hr hx
@@ -83,7 +83,7 @@ theorem implHas_append (F : Facts15) (fuel : Nat) (name : String) (t : Nat) :
   have hx2 := exists_of_ext (e1.trans e2) v hlt hx
   exact updCls_has name g1' g2 v _ (fun cl => mem_keys_odictSet _ _ _) hx2 hr
 
-theorem implHas_insert (F : Facts15) (fuel idx : Nat) (name : String) (t : Nat) :
+theorem implHas_insert (F : Facts15) [DeepCopy F] (fuel idx : Nat) (name : String) (t : Nat) :
     ImplHas name (insertImpl F fuel idx name t) := by
   refine ⟨impl_insert F fuel idx name t, ?_⟩
   intro v g g2 hr hx
